@@ -1,6 +1,9 @@
 import SpecVerif.Proofs.Lemmas.LinPred
 import SpecVerif.Proofs.Lemmas.LpcLsf
 import SpecVerif.Proofs.Lemmas.LsfCircle
+import SpecVerif.Proofs.Lemmas.LsfInterlace
+import SpecVerif.Proofs.Lemmas.LsfRoundtrip
+import Mathlib.Data.List.Sort
 import Mathlib.Algebra.Star.Rat
 import Mathlib.Algebra.BigOperators.Group.List.Basic
 /-
@@ -44,10 +47,21 @@ import Mathlib.Algebra.BigOperators.Group.List.Basic
     lists multiply back to the deflated polynomials) the `2p` computed roots are unimodular, not `±1`,
     pairwise distinct, closed under conjugation; over `ℂ` each is `e^{iθ}` with `θ = angle(r)`, exactly `p`
     angles are positive, they lie in `(0, π)`, and sorted they are strictly increasing.
-  NOT proved (not part of the clause): the *interlacing* of the zeros of `P1` and `Q1` (needs the
-  monotonicity of the phase of the all-pass function `B/(zA)`); NOT modelled: the numerical root finder
-  itself and `poly2lsf`'s selection of one root per conjugate pair by position (`rP[1::2]`), which relies
-  on the ordering of `numpy.roots`' output.
+  The ALTERNATION (interlacing theorem of the line spectral pairs) is PROVED in the last section (helper
+  lemmas in `Proofs/Lemmas/LsfInterlace.lean`, namespace `SpecVerif.LsfInterlaceL`), over `ℂ`:
+  * `lsf_zeros_interlace`: between two zeros `e^{it1}`, `e^{it2}` (`t1 < t2`) of `P1` there is a zero `e^{is}`,
+    `t1 < s < t2`, of `Q1`, and vice versa (fixed zeros `±1` included) — the kernel identity
+    `P1(z)conj Q1(w) + Q1(z)conj P1(w) = −2(1 − z conj w)S(z,w)` gives `d/dt [P1/Q1](e^{it}) = 2i·S(w,w)/|Q1(w)|²`
+    (monotone phase of the all-pass function `zA/B`), then Rolle's theorem (Sturm separation);
+  * `lsf_computed_roots_interlace`: the same for the computed root lists, with the consequences of the fixed
+    zeros (the smallest frequency belongs to `Q`, the largest to `P` for even and to `Q` for odd order);
+  * `lsf_sorted_alternate`: in the sorted list of the `p` line spectral frequencies the even positions
+    `0, 2, …` are zeros of `Q` and the odd positions zeros of `P` — the assignment `rQ = z[0::2]`,
+    `rP = z[1::2]` made by `lsf2poly`;
+  * `lsf2poly_poly2lsf`: hence `lsf2poly` applied to the sorted positive angles of the computed roots returns
+    the polynomial (round trip through the frequencies themselves, relative to the contract of `numpy.roots`).
+  NOT modelled: the numerical root finder itself and `poly2lsf`'s selection of one root per conjugate pair
+  by position (`rP[1::2]`), which relies on the ordering of `numpy.roots`' output.
 -/
 namespace SpecVerif.C11
 open SpecVerif
@@ -687,5 +701,180 @@ theorem lsf_angles (c : List ℂ) (hreal : ∀ j, star (nth c j) = nth c j)
     exact ⟨of_decide_eq_true hpos, (hang r hr).2.2.1⟩
 
 end LsfCircle
+
+/-! ### interlacing: the zeros of `P1` and `Q1` alternate round the unit circle
+
+Helper lemmas in `Proofs/Lemmas/LsfInterlace.lean` (namespace `SpecVerif.LsfInterlaceL`).  The
+Christoffel–Darboux kernel `S` of the step-up recursion gives, for all complex `z`, `w`,
+`P1(z)·conj Q1(w) + Q1(z)·conj P1(w) = −2(1 − z·conj w)·S(z, w)`; on the circle this makes `P1/Q1` purely
+imaginary with `d/dt [P1/Q1](e^{it}) = i·2·S(w,w)/|Q1(w)|²`, `S(w,w) ≥ |A(w)|² > 0` (monotone phase of the
+all-pass function `zA/B`), and Rolle's theorem applied to `Im(P1/Q1)` yields Sturm's separation: between
+two zeros of `P1` there is a zero of `Q1`; the identity is symmetric in `P1 ↔ Q1`. -/
+
+section LsfInterlace
+open SpecVerif.LpcL SpecVerif.SchurL SpecVerif.LsfCircleL SpecVerif.LsfInterlaceL
+  SpecVerif.LsfRoundtripL
+
+/-- **interlacing theorem of the line spectral pairs**: for a real minimum-phase prediction polynomial
+`[1, c_1..c_p]`, between any two zeros `e^{it1}`, `e^{it2}` (`t1 < t2`, any real angles, in particular
+`0 ≤ t1 < t2 ≤ π` with the fixed zeros `z = ±1` included) of the difference polynomial `P1` there is a
+zero `e^{is}`, `t1 < s < t2`, of the sum polynomial `Q1` — and between any two zeros of `Q1` there is a
+zero of `P1`. -/
+theorem lsf_zeros_interlace (c : List ℂ) (hreal : ∀ j, star (nth c j) = nth c j)
+    (hk : ∀ k ∈ poly2rc c, ‖k‖ < 1) (t1 t2 : ℝ) (h12 : t1 < t2) :
+    (polyEval (lsfSplit ((1 : ℂ) :: c)).1 (Complex.exp (t1 * Complex.I)) = 0 →
+      polyEval (lsfSplit ((1 : ℂ) :: c)).1 (Complex.exp (t2 * Complex.I)) = 0 →
+      ∃ s : ℝ, t1 < s ∧ s < t2 ∧ polyEval (lsfSplit ((1 : ℂ) :: c)).2 (Complex.exp (s * Complex.I)) = 0)
+    ∧ (polyEval (lsfSplit ((1 : ℂ) :: c)).2 (Complex.exp (t1 * Complex.I)) = 0 →
+      polyEval (lsfSplit ((1 : ℂ) :: c)).2 (Complex.exp (t2 * Complex.I)) = 0 →
+      ∃ s : ℝ, t1 < s ∧ s < t2
+        ∧ polyEval (lsfSplit ((1 : ℂ) :: c)).1 (Complex.exp (s * Complex.I)) = 0) := by
+  obtain ⟨kr, hr, hk', _, rfl⟩ := minphase_eq_rc2poly c hreal hk
+  exact lsfSplit_interlace kr 1 hr hk' t1 t2 h12
+
+/-- non-vacuity of `lsf_zeros_interlace`: for `a = [1, -3/5, 2/5]` (real, reflection coefficients
+`[-3/7, 2/5]`, see the example above) `P1 = (z² + 1)(z − 1)` vanishes at `e^{i·0} = 1` and at
+`e^{iπ/2} = i`; the zero of `Q1` in between is `(3 + 4i)/5` -/
+example : (0 : ℝ) < Real.pi / 2
+    ∧ polyEval (lsfSplit ([1, -3 / 5, 2 / 5] : List ℂ)).1 (Complex.exp (((0 : ℝ) : ℂ) * Complex.I)) = 0
+    ∧ polyEval (lsfSplit ([1, -3 / 5, 2 / 5] : List ℂ)).1
+        (Complex.exp (((Real.pi / 2 : ℝ) : ℂ) * Complex.I)) = 0
+    ∧ polyEval (lsfSplit ([1, -3 / 5, 2 / 5] : List ℂ)).2 ((3 + 4 * Complex.I) / 5) = 0 := by
+  have hP : (lsfSplit ([1, -3 / 5, 2 / 5] : List ℂ)).1 = [1, -1, 1, -1] := by
+    simp [lsfSplit, vec, nth, List.range, List.range.loop]
+    norm_num
+  have hQ : (lsfSplit ([1, -3 / 5, 2 / 5] : List ℂ)).2 = [1, -1 / 5, -1 / 5, 1] := by
+    simp [lsfSplit, vec, nth, List.range, List.range.loop]
+    norm_num
+  refine ⟨by positivity, ?_, ?_, ?_⟩
+  · rw [hP]
+    simp [polyEval, Finset.sum_range_succ, nth]
+  · rw [hP]
+    push_cast
+    rw [Complex.exp_pi_div_two_mul_I]
+    simp [polyEval, Finset.sum_range_succ, nth, pow_succ]
+  · rw [hQ]
+    simp [polyEval, Finset.sum_range_succ, nth]
+    ring_nf
+    simp [Complex.I_sq]
+
+/-- **the computed roots interlace**, relative to the contract of `numpy.roots` (as in
+`lsf_computed_roots_unit_distinct`): between the positive angles of two roots of the deflated `P` lies the
+angle of a root of the deflated `Q`, and vice versa; below the positive angle of any root of `P` lies a
+positive angle of a root of `Q` (fixed zero `z = 1` of `P1`), so the smallest line spectral frequency
+belongs to `Q`; above the positive angle of any root of `Q` (even order, fixed zero `z = −1` of `Q1`) resp.
+of `P` (odd order, fixed zero `z = −1` of `P1`) lies the angle of a root of the other polynomial, so the
+largest line spectral frequency belongs to `P` for even and to `Q` for odd order -/
+theorem lsf_computed_roots_interlace (c : List ℂ) (hreal : ∀ j, star (nth c j) = nth c j)
+    (hk : ∀ k ∈ poly2rc c, ‖k‖ < 1) (p : ℕ) (hp : c.length = p) (P Q rP rQ : List ℂ)
+    (hP : polyMul P (if p % 2 = 1 then [1, 0, -1] else [1, -1]) = (lsfSplit ((1 : ℂ) :: c)).1)
+    (hQ : polyMul Q (if p % 2 = 1 then [1] else [1, 1]) = (lsfSplit ((1 : ℂ) :: c)).2)
+    (hrP : polyFromRoots rP = P) (hrQ : polyFromRoots rQ = Q) :
+    (∀ r1 ∈ rP, ∀ r2 ∈ rP, 0 < r1.arg → r1.arg < r2.arg →
+        ∃ q ∈ rQ, r1.arg < q.arg ∧ q.arg < r2.arg)
+    ∧ (∀ q1 ∈ rQ, ∀ q2 ∈ rQ, 0 < q1.arg → q1.arg < q2.arg →
+        ∃ r ∈ rP, q1.arg < r.arg ∧ r.arg < q2.arg)
+    ∧ (∀ r ∈ rP, 0 < r.arg → ∃ q ∈ rQ, 0 < q.arg ∧ q.arg < r.arg)
+    ∧ (p % 2 = 0 → ∀ q ∈ rQ, 0 < q.arg → ∃ r ∈ rP, q.arg < r.arg ∧ r.arg < Real.pi)
+    ∧ (p % 2 = 1 → ∀ r ∈ rP, 0 < r.arg → ∃ q ∈ rQ, r.arg < q.arg ∧ q.arg < Real.pi) := by
+  obtain ⟨kr, hr, hk', hkl, rfl⟩ := minphase_eq_rc2poly c hreal hk
+  exact lsf_computed_interlace kr 1 hr hk' p (hkl.trans hp) P Q rP rQ hP hQ hrP hrQ
+
+/-- **the sorted line spectral frequencies alternate between `Q` and `P`, starting with `Q`**: under the
+hypotheses of `lsf_angles`, in any sorted rearrangement `lsf` of the positive angles of the computed roots
+the entries at even positions `0, 2, 4, …` are angles of roots of the deflated sum polynomial `Q` and the
+entries at odd positions `1, 3, 5, …` are angles of roots of the deflated difference polynomial `P` (the two
+kinds are disjoint: the angles of `rP ++ rQ` are pairwise distinct by `lsf_angles`).  This is the
+assignment `rQ = z[0::2]`, `rP = z[1::2]` that `lsf2poly` makes. -/
+theorem lsf_sorted_alternate (c : List ℂ) (hreal : ∀ j, star (nth c j) = nth c j)
+    (hk : ∀ k ∈ poly2rc c, ‖k‖ < 1) (p : ℕ) (hp : c.length = p) (P Q rP rQ : List ℂ)
+    (hP : polyMul P (if p % 2 = 1 then [1, 0, -1] else [1, -1]) = (lsfSplit ((1 : ℂ) :: c)).1)
+    (hQ : polyMul Q (if p % 2 = 1 then [1] else [1, 1]) = (lsfSplit ((1 : ℂ) :: c)).2)
+    (hrP : polyFromRoots rP = P) (hrQ : polyFromRoots rQ = Q) (lsf : List ℝ)
+    (hperm : lsf.Perm (((rP ++ rQ).map Complex.arg).filter (fun θ => decide (0 < θ))))
+    (hsorted : lsf.Pairwise (· ≤ ·)) :
+    ∀ (i : ℕ) (hi : i < lsf.length),
+      (i % 2 = 0 → lsf[i] ∈ rQ.map Complex.arg) ∧ (i % 2 = 1 → lsf[i] ∈ rP.map Complex.arg) := by
+  obtain ⟨_, _, hsort⟩ := lsf_angles c hreal hk p hp P Q rP rQ hP hQ hrP hrQ
+  obtain ⟨_, hstrict, _⟩ := hsort lsf hperm hsorted
+  obtain ⟨h1, h2, h3, _, _⟩ :=
+    lsf_computed_roots_interlace c hreal hk p hp P Q rP rQ hP hQ hrP hrQ
+  have hmem : ∀ x, x ∈ lsf ↔ (∃ r ∈ rP ++ rQ, r.arg = x) ∧ 0 < x := by
+    intro x
+    rw [hperm.mem_iff, List.mem_filter, List.mem_map, decide_eq_true_eq]
+  have hinP : ∀ r ∈ rP, 0 < r.arg → r.arg ∈ lsf := fun r hr h0 =>
+    (hmem _).mpr ⟨⟨r, List.mem_append.mpr (Or.inl hr), rfl⟩, h0⟩
+  have hinQ : ∀ r ∈ rQ, 0 < r.arg → r.arg ∈ lsf := fun r hr h0 =>
+    (hmem _).mpr ⟨⟨r, List.mem_append.mpr (Or.inr hr), rfl⟩, h0⟩
+  refine alternate_of_sorted lsf hstrict (fun x => x ∈ rP.map Complex.arg)
+    (fun x => x ∈ rQ.map Complex.arg) ?_ ?_ ?_ ?_
+  · intro x hx
+    obtain ⟨⟨r, hr, rfl⟩, _⟩ := (hmem x).mp hx
+    rcases List.mem_append.mp hr with h | h
+    · exact Or.inl (List.mem_map.mpr ⟨r, h, rfl⟩)
+    · exact Or.inr (List.mem_map.mpr ⟨r, h, rfl⟩)
+  · intro x hx hxP
+    obtain ⟨r, hr, rfl⟩ := List.mem_map.mp hxP
+    obtain ⟨q, hq, hq0, hqr⟩ := h3 r hr ((hmem _).mp hx).2
+    exact ⟨q.arg, hinQ q hq hq0, hqr⟩
+  · intro x hx y hy hxP hyP hxy
+    obtain ⟨r1, hr1, rfl⟩ := List.mem_map.mp hxP
+    obtain ⟨r2, hr2, rfl⟩ := List.mem_map.mp hyP
+    have h0 := ((hmem _).mp hx).2
+    obtain ⟨q, hq, hq1, hq2⟩ := h1 r1 hr1 r2 hr2 h0 hxy
+    exact ⟨q.arg, hinQ q hq (by linarith), hq1, hq2⟩
+  · intro x hx y hy hxQ hyQ hxy
+    obtain ⟨q1, hq1, rfl⟩ := List.mem_map.mp hxQ
+    obtain ⟨q2, hq2, rfl⟩ := List.mem_map.mp hyQ
+    have h0 := ((hmem _).mp hx).2
+    obtain ⟨r, hr, hr1, hr2⟩ := h2 q1 hq1 q2 hq2 h0 hxy
+    exact ⟨r.arg, hinP r hr (by linarith), hr1, hr2⟩
+
+/-- non-vacuity of the hypotheses of `lsf_sorted_alternate` / `lsf2poly_poly2lsf`: the polynomial and
+root-contract hypotheses are those of `lsf_angles` (order-2 instance above); a sorted rearrangement `lsf`
+of the positive angles always exists -/
+example (L : List ℝ) : ∃ lsf : List ℝ, lsf.Perm L ∧ lsf.Pairwise (· ≤ ·) :=
+  ⟨L.insertionSort (· ≤ ·), List.perm_insertionSort _ L, List.pairwise_insertionSort _ L⟩
+
+/-- the slices of `lsf2poly`: `evens l = l[0::2]`, `odds l = l[1::2]` -/
+example : evens [10, 11, 12, 13, 14] = [10, 12, 14] ∧ odds [10, 11, 12, 13, 14] = [11, 13] :=
+  ⟨rfl, rfl⟩
+
+/-- **`lsf2poly ∘ poly2lsf = id` through the sorted frequencies** (relative to the contract of
+`numpy.roots` only): let `lsf` be the sorted list of the positive angles of the roots that `poly2lsf`
+computes for the real minimum-phase polynomial `a = [1, c_1..c_p]` (hypotheses of `lsf_angles`).  Then
+`lsf2poly lsf` — which forms `z = exp(i·lsf)`, assigns `rQ = z[0::2]`, `rP = z[1::2]`, appends the
+conjugates, multiplies the linear factors (`numpy.poly`), re-inserts the fixed zeros `±1` and averages —
+returns `a`.  The assignment by position is correct because of the alternation `lsf_sorted_alternate`;
+`numpy.poly` does not depend on the order of the roots (`LsfRoundtripL.polyFromRoots_perm`). -/
+theorem lsf2poly_poly2lsf (c : List ℂ) (hreal : ∀ j, star (nth c j) = nth c j)
+    (hk : ∀ k ∈ poly2rc c, ‖k‖ < 1) (p : ℕ) (hp : c.length = p) (P Q rP rQ : List ℂ)
+    (hP : polyMul P (if p % 2 = 1 then [1, 0, -1] else [1, -1]) = (lsfSplit ((1 : ℂ) :: c)).1)
+    (hQ : polyMul Q (if p % 2 = 1 then [1] else [1, 1]) = (lsfSplit ((1 : ℂ) :: c)).2)
+    (hrP : polyFromRoots rP = P) (hrQ : polyFromRoots rQ = Q) (lsf : List ℝ)
+    (hperm : lsf.Perm (((rP ++ rQ).map Complex.arg).filter (fun θ => decide (0 < θ))))
+    (hsorted : lsf.Pairwise (· ≤ ·)) :
+    lsfRecombine
+      ((evens lsf).map (fun θ : ℝ => Complex.exp (θ * Complex.I))
+        ++ ((evens lsf).map (fun θ : ℝ => Complex.exp (θ * Complex.I))).map star)
+      ((odds lsf).map (fun θ : ℝ => Complex.exp (θ * Complex.I))
+        ++ ((odds lsf).map (fun θ : ℝ => Complex.exp (θ * Complex.I))).map star) p
+      = (1 : ℂ) :: c := by
+  obtain ⟨_, hndarg, hsort⟩ := lsf_angles c hreal hk p hp P Q rP rQ hP hQ hrP hrQ
+  obtain ⟨_, hstrict, hrange⟩ := hsort lsf hperm hsorted
+  obtain ⟨hunit, hnd, hcP, hcQ, _⟩ :=
+    lsf_computed_roots_unit_distinct c hreal hk p hp P Q rP rQ hP hQ hrP hrQ
+  have halt := lsf_sorted_alternate c hreal hk p hp P Q rP rQ hP hQ hrP hrQ lsf hperm hsorted
+  have hsup : ∀ r ∈ rP ++ rQ, 0 < r.arg → r.arg ∈ lsf := by
+    intro r hr h0
+    rw [hperm.mem_iff, List.mem_filter, decide_eq_true_eq]
+    exact ⟨List.mem_map.mpr ⟨r, hr, rfl⟩, h0⟩
+  obtain ⟨hpQ, hpP⟩ :=
+    slices_perm_roots rP rQ lsf hnd hndarg hunit hcP hcQ hstrict hrange hsup halt
+  exact (lsf_roundtrip_algebra (two_ne_zero : (2 : ℂ) ≠ 0) ((1 : ℂ) :: c) p
+    (by rw [List.length_cons, hp]) P Q _ _ hP hQ
+    ((polyFromRoots_perm _ _ hpP).trans hrP) ((polyFromRoots_perm _ _ hpQ).trans hrQ)).1
+
+end LsfInterlace
 
 end SpecVerif.C11
